@@ -611,6 +611,11 @@ func c15IsLimitNormaliser(h *ssa.Function) bool {
 			sawDefault = true
 		case *ssa.Const:
 			sawDefault = true
+		case *ssa.Call:
+			if !c15IsOrDefault(v, np) {
+				return false
+			}
+			sawDefault, sawParam = true, true
 		default:
 			return false
 		}
@@ -618,7 +623,60 @@ func c15IsLimitNormaliser(h *ssa.Function) bool {
 	return sawDefault && sawParam
 }
 
+// c15IsOrDefault: v = cmp.Or(max(n, 0), default) — the first non-zero of the
+// given limit clamped at zero and the default, i.e. n when positive, else the default.
+func c15IsOrDefault(v ssa.Value, param *ssa.Parameter) bool {
+	call, ok := v.(*ssa.Call)
+	if !ok || CalleeName(call) != "cmp.Or" || len(call.Call.Args) != 1 {
+		return false
+	}
+	// variadic: the elements stored into the backing array
+	var elems []ssa.Value
+	if sl, isSlice := call.Call.Args[0].(*ssa.Slice); isSlice {
+		if al, isAlloc := sl.X.(*ssa.Alloc); isAlloc {
+			byIdx := map[int64]ssa.Value{}
+			for _, r := range *al.Referrers() {
+				if ia, isIA := r.(*ssa.IndexAddr); isIA {
+					k, _ := c13ConstInt(ia.Index)
+					for _, r2 := range *ia.Referrers() {
+						if st, isStore := r2.(*ssa.Store); isStore {
+							byIdx[k] = st.Val
+						}
+					}
+				}
+			}
+			for i := int64(0); i < int64(len(byIdx)); i++ {
+				elems = append(elems, byIdx[i])
+			}
+		}
+	}
+	if len(elems) != 2 {
+		return false
+	}
+	first, isCall := elems[0].(*ssa.Call)
+	if !isCall || CalleeName(first) != "builtin:max" || len(first.Call.Args) != 2 {
+		return false
+	}
+	a, b := first.Call.Args[0], first.Call.Args[1]
+	ka, okA := c13ConstInt(a)
+	kb, okB := c13ConstInt(b)
+	clamped := (a == ssa.Value(param) && okB && kb == 0) || (b == ssa.Value(param) && okA && ka == 0)
+	if !clamped {
+		return false
+	}
+	d := strip(elems[1])
+	if ld, isLoad := d.(*ssa.UnOp); isLoad && ld.Op == token.MUL {
+		_, isG := ld.X.(*ssa.Global)
+		return isG
+	}
+	k, isC := c13ConstInt(d)
+	return isC && k > 0
+}
+
 func c15LimitValueOK(fn *ssa.Function, lim ssa.Value, param *ssa.Parameter) (ok bool, why string) {
+	if c15IsOrDefault(lim, param) {
+		return true, ""
+	}
 	// the effective limit computed by a shared normalising helper from the given limit
 	if call, isCall := lim.(*ssa.Call); isCall && len(call.Call.Args) == 1 && call.Call.Args[0] == ssa.Value(param) && c15IsLimitNormaliser(StaticCallee(call)) {
 		return true, ""
